@@ -100,6 +100,9 @@ type sTask struct {
 	// goes through the fingerprinted path of RunTask (the sources checker records, a failing command takes the record back):
 	// a failing command of such a task must stop its callers exactly like any other
 	Src bool `json:"src,omitempty"`
+	// Watch (rendering only): `watch: true` on a task that is NOT named on the command line — without --watch it is an
+	// ordinary task when reached through deps / task: entries (it is counted, it can be part of a cycle, …)
+	Watch bool `json:"watch,omitempty"`
 	// Rendering only — the model's program does not know how a task is named:
 	// Aliases: the task has that many aliases (`aliases: [t<i>a, t<i>b]`); Wild: it is a wildcard task (`t<i>-*`)
 	// that every reference calls by a concrete name (`t<i>-x`, `t<i>-y`, `t<i>-z`).  Which name a reference
@@ -364,6 +367,17 @@ func renderSched(d schedCase) (string, string) {
 		}
 		if t.CompileErr > 0 && t.CompileSrc {
 			b.WriteString("    sources: ['Taskfile.yml']\n")
+		}
+		if t.Watch {
+			onCmdLine := false
+			for _, ci := range d.Calls {
+				if ci == i {
+					onCmdLine = true
+				}
+			}
+			if !onCmdLine {
+				b.WriteString("    watch: true\n")
+			}
 		}
 		if t.Src && !t.UpToDate && t.CompileErr == 0 {
 			fmt.Fprintf(&b, "    sources: ['Taskfile.yml']\n    method: %s\n    status: ['exit 1']\n", []string{"checksum", "timestamp"}[i%2])
@@ -940,6 +954,10 @@ func (c *Ctx) genSched(maxTasks int, cyclic bool) schedCase {
 // genCycle: a ring of k tasks, each reaching the next through one dep or one task: command,
 // with a few ordinary commands around; `dedup` puts a run: once task on the ring.
 func (c *Ctx) genCycle(dedup bool) schedCase {
+	return c.genCycle2(dedup, !dedup && c.Rng.Intn(3) == 0)
+}
+
+func (c *Ctx) genCycle2(dedup, watchRing bool) schedCase {
 	r := c.Rng
 	k := 1 + r.Intn(3)
 	d := schedCase{Cap: []int{0, 1, 2}[r.Intn(3)], Jitter: 0, Seed: r.Int63(), Calls: []int{0}}
@@ -958,6 +976,16 @@ func (c *Ctx) genCycle(dedup bool) schedCase {
 			t.Cmds = append(t.Cmds, sCmd{Call: next, Var: -1})
 		}
 		d.Tasks = append(d.Tasks, t)
+	}
+	if watchRing {
+		// the ring is entered from a task outside it and every task ON the ring carries `watch: true` (no effect without
+		// --watch: the ring is still a cycle and must end with the call-limit error)
+		for i := range d.Tasks {
+			d.Tasks[i].Watch = true
+		}
+		d.Tasks = append(d.Tasks, sTask{Run: "always", PlatformOk: true, RequiresOk: true, EnumOk: true, PrecondOk: true,
+			Cmds: []sCmd{{Call: 0, Var: -1}}})
+		d.Calls = []int{k}
 	}
 	if dedup {
 		// at least one deduplicated task on the ring, each of the others with probability 1/2
@@ -1327,6 +1355,9 @@ func (c *Ctx) decorate(d *schedCase) {
 			}
 		}
 		t.Src = r.Intn(4) == 0
+		if !t.Watch {
+			t.Watch = r.Intn(8) == 0
+		}
 		if t.EnumKind == 0 && r.Intn(3) == 0 {
 			// the checked variable is a YAML number / boolean / arrives as a number in the call
 			t.EnumKind = 1 + r.Intn(3)
@@ -1862,6 +1893,10 @@ func runSched(c *Ctx) {
 		var d schedCase
 		if cyclic {
 			d = c.genCycle(false)
+		} else if i%(c.Pick(400, 250)) == 159 {
+			d = c.genCycle2(false, true)
+			cyclic = true
+			c.Hit("cycle:watch-ring")
 		} else if i%25 == 7 {
 			d = c.genBarrier()
 			c.Hit("barrier")
